@@ -434,7 +434,7 @@ pub fn dyn_branches(ctx: &Ctx, cons: &ckb_chain_spec::consensus::Consensus, a_le
     Ok((u.a, u.b))
 }
 
-fn orders(na: usize, nb: usize) -> Vec<Vec<bool>> {
+pub fn orders(na: usize, nb: usize) -> Vec<Vec<bool>> {
     fn rec(i: usize, j: usize, na: usize, nb: usize, cur: &mut Vec<bool>, out: &mut Vec<Vec<bool>>) {
         if i == na && j == nb {
             out.push(cur.clone());
